@@ -891,16 +891,23 @@ func ConcatAll[T any]() func(Observable[Observable[T]]) Observable[T] {
 		return NewUnsafeObservableWithContext(func(subscriberCtx context.Context, destination Observer[T]) Teardown {
 			subscriptions := NewSubscription(nil)
 
+			var failed int32 // set once an inner observable has errored: later ones must not be subscribed
+
 			subscriptions.AddUnsubscribable(
 				sources.SubscribeWithContext(
 					subscriberCtx,
 					NewObserverWithContext(
 						func(ctx context.Context, source Observable[T]) {
+							if atomic.LoadInt32(&failed) == 1 {
+								return
+							}
+
 							sub := source.SubscribeWithContext(
 								ctx,
 								NewObserverWithContext(
 									destination.NextWithContext,
 									func(ctx context.Context, err error) {
+										atomic.StoreInt32(&failed, 1)
 										subscriptions.Unsubscribe()
 										destination.ErrorWithContext(ctx, err)
 									},
